@@ -112,6 +112,7 @@ PIPE_PROFILE = {
     'card_names': ['False', 'True'],
     'tail_prob': 0.08,
     'more_runs': 0.2,
+    'ref_json': 0.1,
 }
 
 RULE = ('hist: history = seeded list of Batch(list, cap[, permuted order]) operations on the real prior_combinations_sample and its process-global counter in a forked process; '
